@@ -45,7 +45,8 @@ def floors(tier):
 
 def gen_cases(tier, seed):
     n = 720 if tier == "quick" else 9000
-    return [{"kind": "sequence", "cls": ["Points", "Curve", "Surface"][i % 3], "n_ops": 4 + (i // 3) % 5 if tier == "quick" else 6 + (i // 3) % 12, "first_index": INDEX_CLASSES[(i // 3) % len(INDEX_CLASSES)]} for i in range(n)]
+    emptied = [{"kind": "emptied", "cls": c, "how": h, "kindd": k, "reopen": r} for c in ("Curve", "Surface") for h in ("cells", "vertices") for k in ("float", "integer", "boolean") for r in (False, True)]
+    return emptied + [{"kind": "sequence", "cls": ["Points", "Curve", "Surface"][i % 3], "n_ops": 4 + (i // 3) % 5 if tier == "quick" else 6 + (i // 3) % 12, "first_index": INDEX_CLASSES[(i // 3) % len(INDEX_CLASSES)]} for i in range(n)]
 
 
 # ------------------------------------------------------------------------------------------
@@ -284,9 +285,74 @@ def judge(rec, obj, model, coords, where, cls):
     return good
 
 
+def run_emptied(case, rec):
+    """The corner where nothing is left to attach to: all cells removed (or the vertices cut down until no cell remains).  The
+    count of entries a cell channel must have is then zero - not 'unknown': anything longer is still refused, and what is stored
+    has one entry per cell, i.e. none."""
+    from geoh5py.objects import Curve, Surface
+    from geoh5py.workspace import Workspace
+
+    rng = random.Random(case["seed"])
+    d = tempfile.mkdtemp(prefix="gvm_")
+    path = os.path.join(d, "e.geoh5")
+    cls = case["cls"]
+    dt = {"float": float, "integer": "int32", "boolean": bool}[case["kindd"]]
+    try:
+        ws = Workspace.create(path)
+        n = rng.randint(4, 7)
+        verts = np.array([[float(i), float(i % 3), 0.0] for i in range(n)])
+        if cls == "Curve":
+            obj = Curve.create(ws, vertices=verts, name="c")
+        else:
+            obj = Surface.create(ws, vertices=verts, cells=np.array([[i, i + 1, i + 2] for i in range(n - 2)], dtype="uint32"), name="s")
+        nc = obj.n_cells
+        spec = {"values": np.arange(nc).astype(dt) if case["kindd"] != "boolean" else (np.arange(nc) % 2 == 0), "association": "CELL"}
+        if case["kindd"] == "integer":
+            spec["type"] = "integer"
+        ch = obj.add_data({"cell_channel": spec})
+        if case["reopen"]:
+            uid = obj.uid
+            ws.close()
+            ws = Workspace(path)
+            obj = ws.get_entity(uid)[0]
+            ch = [c for c in obj.children if c.name == "cell_channel"][0]
+        if case["how"] == "cells":
+            obj.remove_cells(list(range(nc)))
+        else:
+            obj.remove_vertices(list(range(1, n)))
+        rec.see("geometries-emptied")
+        rec.check("C07.count", (obj.n_cells or 0) == 0 and (ch.values is None or len(ch.values) == 0), op="emptied:" + case["how"], cls=cls, attr=case["kindd"], detail=f"after removing every cell: n_cells={obj.n_cells}, channel holds {None if ch.values is None else len(ch.values)} entries")
+        long_ = np.arange(3).astype(dt) if case["kindd"] != "boolean" else np.array([True, False, True])
+        for how, fn in (("assign", lambda: setattr(ch, "values", long_.copy())), ("add_data", lambda: obj.add_data({"late": dict(spec, values=long_.copy())}))):
+            rec.see("failing-calls")
+            try:
+                fn()
+                rec.fail("C07.too-long-accepted", op=how, cls=cls, attr=f"{case['kindd']}:CELL:emptied", detail=f"3 values accepted for an object without cells ({how})")
+            except Exception as exc:  # noqa: BLE001
+                if not exc_origin(exc)[0]:
+                    raise
+        uid = obj.uid
+        ws.close()
+        ws = Workspace(path, mode="r")
+        obj = ws.get_entity(uid)[0]
+        for c in obj.children:
+            v = getattr(c, "values", None)
+            if isinstance(v, np.ndarray) and getattr(c.association, "name", "") == "CELL":
+                rec.check("C07.count", len(v) == (obj.n_cells or 0), op="emptied:reopen", cls=cls, attr=case["kindd"], detail=f"stored channel {c.name!r} holds {len(v)} entries for {obj.n_cells} cells")
+        ws.close()
+        rec.nontrivial = True
+        rec.shape = ["emptied", cls, case["how"], case["kindd"], case["reopen"]]
+        rec.sample = {"kind": "emptied", "cls": cls}
+    finally:
+        shutil.rmtree(d, ignore_errors=True)
+        gc.collect()
+
+
 def run_case(case, rec):
     from geoh5py.workspace import Workspace
 
+    if case.get("kind") == "emptied":
+        return run_emptied(case, rec)
     rng = random.Random(case["seed"])
     cls = case["cls"]
     d = tempfile.mkdtemp(prefix="gvm_")
